@@ -150,7 +150,7 @@ def build_and_verify(unit_name, src, th, timeout=900, seed=None):
 
     def one(item):
         suffix, p, text, names = item
-        r = run_verus(p, timeout=timeout, extra=extra, rlimit=(40 if suffix == 'main' else 80))
+        r = run_verus(p, timeout=timeout, extra=extra, rlimit=(getattr(u, 'rlimit', 40) if suffix in ('main', 'canary') else 80))
         c = classify(r, text)
         if suffix == 'canary':
             lines = text.split('\n')
